@@ -90,51 +90,7 @@ def ref_filter(entries, key, value):
     return out
 
 
-def parse_link_format(text):
-    """independent minimal RFC 6690 parser -> [(href, {attr: [values]})]"""
-    links = []
-    i = 0
-    n = len(text)
-    while i < n:
-        if text[i] != "<":
-            raise ValueError("expected '<' at %d in %r" % (i, text[:80]))
-        j = text.index(">", i)
-        href = text[i + 1 : j]
-        i = j + 1
-        attrs = {}
-        while i < n and text[i] == ";":
-            i += 1
-            k = i
-            while k < n and text[k] not in "=;,":
-                k += 1
-            name = text[i:k]
-            i = k
-            val = None
-            if i < n and text[i] == "=":
-                i += 1
-                if i < n and text[i] == '"':
-                    k = i + 1
-                    buf = []
-                    while text[k] != '"':
-                        if text[k] == "\\":
-                            k += 1
-                        buf.append(text[k])
-                        k += 1
-                    val = "".join(buf)
-                    i = k + 1
-                else:
-                    k = i
-                    while k < n and text[k] not in ";,":
-                        k += 1
-                    val = text[i:k]
-                    i = k
-            attrs.setdefault(name, []).append(val)
-        links.append((href, attrs))
-        if i < n:
-            if text[i] != ",":
-                raise ValueError("expected ',' at %d in %r" % (i, text[:80]))
-            i += 1
-    return links
+from vlib.linkfmt import parse_link_format  # noqa: E402
 
 
 def pct_decode(s):
